@@ -123,6 +123,9 @@ class GFFAttributes:
                 [BioCantorGFF3ReservedQualifiers.NAME.value, GFFAttributes.escape_value(self.name, escape_comma=True)]
             )
 
+        # qualifier keys that are written under the same tag (they differ only in letter case) share one attribute: a tag
+        # must not appear twice in a row, its values are separated by commas
+        folded = {}
         for key, value_set in sorted(self.attributes.items()):
             if not value_set:
                 continue
@@ -144,8 +147,9 @@ class GFFAttributes:
             else:
                 escaped_key = GFFAttributes.escape_key(str(key), lower=True)
             escaped_vals = [GFFAttributes.escape_value(value, escape_comma=False) for value in value_set]
-            escaped_val = ATTRIBUTE_SEPARATOR.join(sorted(escaped_vals))
-            attrs_list.append([escaped_key, escaped_val])
+            folded.setdefault(escaped_key, set()).update(escaped_vals)
+        for escaped_key, escaped_vals in folded.items():
+            attrs_list.append([escaped_key, ATTRIBUTE_SEPARATOR.join(sorted(escaped_vals))])
         return ";".join(["=".join(pair) for pair in attrs_list])
 
     @staticmethod
